@@ -9,6 +9,8 @@ def run(tier):
     rep = vlib.Report(PROP, tier)
     binary = vlib.build_harness()
     d, cases, outs = common.mc_replay(rep, binary, PROP, "MC_C16", keyf=common.default_key)
+    # (b) impl -> spec: value-level mutations of the accepted record sequences, compared with the specification's answer
+    common.dfuzz(rep, binary, PROP, cases, 3000 if tier != "thorough" else 60000)
     # relational binding without a functional oracle: the multi-record result must be what an explicit loop over
     # the crate's own single-record parser yields, on every model input (pinned and not)
     singles = []
